@@ -30,6 +30,7 @@ Inductive instr :=
 | ILoadNames (ps : list name)
 | IBuildKwargs (n : nat)
 | IBuildList (n : option nat)
+| IBuildMap (n : nat)
 | IUnpackList (n : nat)
 | IBinOp (op : binop)
 | INeg
